@@ -55,7 +55,7 @@ def selfcheck_render(case):
     if len(raw) != len(case.toks):
         return "token count %d != %d" % (len(case.toks), len(raw))
     for (k, t), tok in zip(raw, case.toks):
-        tt = tok.text.decode("utf-8")
+        tt = tok.text.decode("utf-8", "surrogateescape")
         if case.layout == "crlf" and k == "ml":
             tt = tt.replace("\r\n", "\n")
         if case.layout == "upper" and k in ("id", "tag"):
